@@ -47,6 +47,8 @@ pub struct Probes {
     pub shift_latest_tight: u64,
     pub open_tours: u64,
     pub clustered_acts: u64,
+    pub recharge_acts: u64,
+    pub recharge_limit_tight: u64,
 }
 
 impl Probes {
@@ -56,7 +58,7 @@ impl Probes {
             tours, activities, multi_activity_stops, waiting_acts, tw_tight, cap_tight, dist_limit_tight,
             dur_limit_tight, size_limit_tight, reload_acts, break_acts, tours_too_ambiguous, multi_jobs_assigned, unassigned,
             skipped_time_replay, tags_checked, order_checked, groups_checked, compat_checked, skills_checked,
-            unreachable_checked, relations_checked, resources_checked, shift_latest_tight, open_tours, clustered_acts
+            unreachable_checked, relations_checked, resources_checked, shift_latest_tight, open_tours, clustered_acts, recharge_acts, recharge_limit_tight
         );
     }
     pub fn to_json(&self) -> serde_json::Value {
@@ -65,7 +67,7 @@ impl Probes {
             tours, activities, multi_activity_stops, waiting_acts, tw_tight, cap_tight, dist_limit_tight,
             dur_limit_tight, size_limit_tight, reload_acts, break_acts, tours_too_ambiguous, multi_jobs_assigned, unassigned,
             skipped_time_replay, tags_checked, order_checked, groups_checked, compat_checked, skills_checked,
-            unreachable_checked, relations_checked, resources_checked, shift_latest_tight, open_tours, clustered_acts
+            unreachable_checked, relations_checked, resources_checked, shift_latest_tight, open_tours, clustered_acts, recharge_acts, recharge_limit_tight
         )
     }
 }
@@ -90,7 +92,7 @@ pub fn check_partition(m: &PModel, s: &SSolution, out: &mut Vec<Issue>, probes: 
         let mut job_acts = 0usize;
         let mut breaks = 0usize;
         let mut reloads: Vec<(Option<usize>, Option<String>)> = vec![];
-        let mut recharges = 0usize;
+        let mut recharges: Vec<(Option<usize>, Option<String>)> = vec![];
         let acts: Vec<(&SStop, &SAct)> = t.stops.iter().flat_map(|st| st.acts.iter().map(move |a| (st, a))).collect();
         for (k, (st, a)) in acts.iter().enumerate() {
             match a.job_id.as_str() {
@@ -106,7 +108,7 @@ pub fn check_partition(m: &PModel, s: &SSolution, out: &mut Vec<Issue>, probes: 
                 }
                 "break" => breaks += 1,
                 "reload" => reloads.push((a.loc.or(st.loc), a.tag.clone())),
-                "recharge" => recharges += 1,
+                "recharge" => recharges.push((a.loc.or(st.loc), a.tag.clone())),
                 id => {
                     job_acts += 1;
                     if m.job(id).is_none() {
@@ -128,8 +130,30 @@ pub fn check_partition(m: &PModel, s: &SSolution, out: &mut Vec<Issue>, probes: 
             if breaks > shift.breaks.len() {
                 issue(out, P, "marker-mismatch", format!("tour {ti}: {breaks} breaks but shift defines {}", shift.breaks.len()));
             }
-            if recharges > 0 && !shift.has_recharges {
-                issue(out, P, "marker-mismatch", format!("tour {ti}: recharge without recharges on shift"));
+            if !recharges.is_empty() {
+                // every recharge activity stands for a distinct station of this very shift (each usable once)
+                let stations: Vec<PReload> = shift.recharges.as_ref().map(|r| r.1.iter().map(|p| PReload { place: p.clone(), resource: None }).collect()).unwrap_or_default();
+                fn fits(r: &(Option<usize>, Option<String>), d: &PReload) -> bool {
+                    r.0 == d.place.loc && (r.1.is_none() || r.1 == d.place.tag)
+                }
+                fn assign_stations(i: usize, rs: &[(Option<usize>, Option<String>)], ds: &[PReload], used: &mut Vec<bool>) -> bool {
+                    if i == rs.len() {
+                        return true;
+                    }
+                    for (k, d) in ds.iter().enumerate() {
+                        if !used[k] && fits(&rs[i], d) {
+                            used[k] = true;
+                            if assign_stations(i + 1, rs, ds, used) {
+                                return true;
+                            }
+                            used[k] = false;
+                        }
+                    }
+                    false
+                }
+                if recharges.len() > stations.len() || !assign_stations(0, &recharges, &stations, &mut vec![false; stations.len()]) {
+                    issue(out, P, "marker-mismatch", format!("tour {ti}: recharge activities {:?} do not match distinct stations of the shift ({} defined)", recharges, stations.len()));
+                }
             }
             // injective matching of reload activities to defined reloads (by location and tag)
             let n = reloads.len();
@@ -160,7 +184,7 @@ pub fn check_partition(m: &PModel, s: &SSolution, out: &mut Vec<Issue>, probes: 
             }
         }
         if job_acts == 0 {
-            let tag = if breaks > 0 || !reloads.is_empty() { "marker-only-tour" } else { "" };
+            let tag = if breaks > 0 || !reloads.is_empty() || !recharges.is_empty() { "marker-only-tour" } else { "" };
             out.push(Issue { prop: P, rule: "empty-tour", msg: format!("tour {ti} ({}) serves no job ({breaks} breaks, {} reloads)", t.vehicle_id, reloads.len()), tag });
         }
     }
@@ -407,7 +431,6 @@ fn check_tour_inner(m: &PModel, ti: usize, t: &STour, assign: &BTreeMap<usize, u
     let clustered_tour = t.stops.iter().any(|s| s.has_parking) || flat.iter().any(|f| f.act.has_commute);
     let unsupported = m.has_required_breaks && !shift.breaks.iter().all(|b| b.optional)
         || clustered_tour
-        || m.has_recharges
         || t.stops.iter().any(|s| s.loc.is_none() || s.has_parking)
         || flat.iter().any(|f| f.act.has_commute);
     if unsupported {
@@ -525,6 +548,8 @@ fn check_tour_inner(m: &PModel, ti: usize, t: &STour, assign: &BTreeMap<usize, u
     let mut cost = 0.0f64;
     let mut time_ok = !unsupported;
     let mut last_end = dep0 as f64;
+    let mut since_recharge: i64 = 0;
+    let mut recharge_reported = false;
 
     for (i, f) in flat.iter().enumerate().skip(1) {
         probes.activities += 1;
@@ -575,7 +600,17 @@ fn check_tour_inner(m: &PModel, ti: usize, t: &STour, assign: &BTreeMap<usize, u
                 }
             }
             "recharge" => {
-                time_ok = false;
+                probes.recharge_acts += 1;
+                for st in shift.recharges.iter().flat_map(|r| r.1.iter()) {
+                    if st.loc == Some(loc) {
+                        if st.times.is_empty() {
+                            cands.push(Cand { dur: st.duration, tw: None, tag: st.tag.clone(), task: 0 });
+                        }
+                        for w in &st.times {
+                            cands.push(Cand { dur: st.duration, tw: Some(*w), tag: st.tag.clone(), task: 0 });
+                        }
+                    }
+                }
             }
             id => {
                 if let Some(ji) = m.job_index.get(id) {
@@ -640,7 +675,7 @@ fn check_tour_inner(m: &PModel, ti: usize, t: &STour, assign: &BTreeMap<usize, u
         let arr = tcur + travel;
 
         if cands.is_empty() {
-            if a.job_id != "recharge" && time_ok {
+            if time_ok {
                 issue(out, F, "place-mismatch", format!("tour {ti}: activity {}:{} at location {loc} matches no defined place", a.job_id, a.kind));
             }
             time_ok = false;
@@ -683,6 +718,7 @@ fn check_tour_inner(m: &PModel, ti: usize, t: &STour, assign: &BTreeMap<usize, u
                     "arrival" => "shift-end-late",
                     "break" => "break-window",
                     "reload" => "reload-window",
+                    "recharge" => "recharge-window",
                     _ => "tw-late",
                 };
                 issue(out, F, rule, format!("tour {ti} ({}): {} '{}' reached at {:.1} after window end {:?}", t.vehicle_id, a.kind, a.job_id, arr, cand.tw.map(|w| w.1)));
@@ -710,7 +746,7 @@ fn check_tour_inner(m: &PModel, ti: usize, t: &STour, assign: &BTreeMap<usize, u
                 }
             }
             // C03: tag of the place actually used
-            if !SPECIAL.contains(&a.job_id.as_str()) || a.job_id == "reload" || a.job_id == "break" {
+            if !SPECIAL.contains(&a.job_id.as_str()) || a.job_id == "reload" || a.job_id == "break" || a.job_id == "recharge" {
                 let consistent: Vec<&Cand> = cands
                     .iter()
                     .filter(|c| {
@@ -728,6 +764,20 @@ fn check_tour_inner(m: &PModel, ti: usize, t: &STour, assign: &BTreeMap<usize, u
         }
         // C03: cumulative distance (exact integers)
         cum_dist += raw_dist;
+        // recharge: the distance driven since the departure / the last recharge station stays within the limit
+        if let Some((limit, _)) = shift.recharges.as_ref() {
+            since_recharge += raw_dist;
+            if (since_recharge as f64 - limit).abs() <= 1.0 {
+                probes.recharge_limit_tight += 1;
+            }
+            if since_recharge as f64 > *limit && !recharge_reported {
+                recharge_reported = true;
+                issue(out, F, "recharge-distance", format!("tour {ti} ({}): {} distance units driven without recharge at activity {i} ({}), limit {}", t.vehicle_id, since_recharge, a.job_id, limit));
+            }
+            if a.job_id == "recharge" {
+                since_recharge = 0;
+            }
+        }
         if f.first_in_stop && !unsupported && f.stop.distance != cum_dist {
             issue(out, S, "stop-distance", format!("tour {ti} stop {}: reported distance {} recomputed {}", f.stop_idx, f.stop.distance, cum_dist));
         }
